@@ -88,22 +88,35 @@ def removeNode (s : P7540) (n : Nat) : P7540 :=
   let s := s.setParent! n none
   { s with nodes := s.nodes.filter fun p => p.1 != (s.node n).id }
 
+def getList (s : P7540) (closed : Bool) : List Nat := if closed then s.closedL else s.idleL
+
+def setList (s : P7540) (closed : Bool) (l : List Nat) : P7540 :=
+  if closed then { s with closedL := l } else { s with idleL := l }
+
+/-- first half of `addClosedOrIdleNode`: when the list is full, remove its oldest node from the tree -/
+def evictHead (s : P7540) (closed : Bool) : P7540 :=
+  if (s.getList closed).length = (if closed then s.maxClosed else s.maxIdle) then
+    match s.getList closed with
+    | x :: rest => (s.removeNode x).setList closed rest
+    | [] => s
+  else s
+
 /-- `addClosedOrIdleNode` on the closed list (`closed = true`) or the idle list -/
 def addClosedOrIdle (s : P7540) (closed : Bool) (n : Nat) : P7540 :=
-  let max := if closed then s.maxClosed else s.maxIdle
-  if max = 0 then s else
-  let l := if closed then s.closedL else s.idleL
-  let (s, l) := if l.length = max then
-      match l with
-      | x :: rest => (s.removeNode x, rest)
-      | [] => (s, l)
-    else (s, l)
-  if closed then { s with closedL := l ++ [n] } else { s with idleL := l ++ [n] }
+  if (if closed then s.maxClosed else s.maxIdle) = 0 then s else
+  let s := s.evictHead closed
+  s.setList closed (s.getList closed ++ [n])
 
 def newNode (s : P7540) (id state : Nat) : P7540 × Nat :=
   let s := s.poolGet
   let nid := s.store.length
   ({ s with store := s.store ++ [{ id := id, q := {}, weight := 15, state := state }] }, nid)
+
+/-- allocate a node for stream `id` in state `st`, link it under `parent`, enter it in the map -/
+def addNode (s : P7540) (id st parent : Nat) : P7540 × Nat :=
+  let (s, nid) := s.newNode id st
+  let s := s.setParent! nid (some parent)
+  ({ s with nodes := (id, nid) :: s.nodes }, nid)
 
 def openStream (s : P7540) (id pusher : Nat) : P7540 × Res :=
   match s.lookup id with
@@ -111,10 +124,15 @@ def openStream (s : P7540) (id pusher : Nat) : P7540 × Res :=
     if (s.node cur).state != 2 then (s, .panic)
     else ({ s.modNode cur (fun n => { n with state := 0 }) with idleL := s.idleL.erase cur }, .ok)
   | none =>
-    let parent := (s.lookup pusher).getD 0
-    let (s, nid) := s.newNode id 0
-    let s := s.setParent! nid (some parent)
-    ({ s with nodes := (id, nid) :: s.nodes, maxID := if id > s.maxID then id else s.maxID }, .ok)
+    let (s, _) := s.addNode id 0 ((s.lookup pusher).getD 0)
+    ({ s with maxID := if id > s.maxID then id else s.maxID }, .ok)
+
+/-- first part of `CloseStream`: mark closed, forget the byte count, return the queue to the pool and
+detach it from the node (`q := n.q; ws.queuePool.put(&q); n.q = writeQueue{}`) -/
+def closeMark (s : P7540) (n : Nat) : P7540 :=
+  let s := s.modNode n fun nn => { nn with state := 1 }
+  let s := s.addBytes n (-(s.node n).bytes)
+  { s.modNode n (fun nn => { nn with q := {} }) with poolN := s.poolN + 1 }
 
 def closeStream (s : P7540) (id : Nat) : P7540 × Res :=
   if id = 0 then (s, .panic) else
@@ -122,10 +140,7 @@ def closeStream (s : P7540) (id : Nat) : P7540 × Res :=
   | none => (s, .panic)
   | some n =>
     if (s.node n).state != 0 then (s, .panic) else
-    let s := s.modNode n fun nn => { nn with state := 1 }
-    let s := s.addBytes n (-(s.node n).bytes)
-    -- `q := n.q; ws.queuePool.put(&q); n.q = writeQueue{}`
-    let s : P7540 := { s.modNode n (fun nn => { nn with q := {} }) with poolN := s.poolN + 1 }
+    let s := s.closeMark n
     if s.maxClosed > 0 then (s.addClosedOrIdle true n, .ok) else (s.removeNode n, .ok)
 
 /-- is `n` a proper ancestor of `x`? (the loop `for x := parent.parent; x != nil; x = x.parent`) -/
@@ -141,9 +156,7 @@ def adjustFind (s : P7540) (id : Nat) : Option (P7540 × Nat) :=
   | none =>
     if id ≤ s.maxID ∨ s.maxIdle = 0 then none else
     let s : P7540 := { s with maxID := id }
-    let (s, nid) := s.newNode id 2
-    let s := s.setParent! nid (some 0)
-    let s : P7540 := { s with nodes := (id, nid) :: s.nodes }
+    let (s, nid) := s.addNode id 2 0
     some (s.addClosedOrIdle false nid, nid)
 
 /-- second half of `AdjustStream`: re-link node `n` under `dep` -/
